@@ -155,9 +155,12 @@ package hcl
 // verif:func (Expression).StartRange
 //@ trusted
 //@ pure
+// (ghost, unit U17i: varsAsked collects every expression whose Variables() was asked for)
+// verif:ghostvar varsAsked ifaceset
 // verif:func (Expression).Variables
 //@ trusted
-//@ assigns nothing
+//@ assigns varsAsked
+//@ ensures in(self, varsAsked) && (forall m iface :: { in(m, varsAsked) } in(m, old(varsAsked)) ==> in(m, varsAsked))
 
 // ---- the text diagnostic writer shows no marked content (unit U18b, C19) ----
 // verif:unit U18b props=C19
